@@ -735,3 +735,82 @@ Theorem flushes_bounded_tree P p N n :
                             | MAfterExec => negb (computed h (c_st (run P k (start h s1))))
                             | _ => false end) (seq 0 n)) <= N)%nat.
 Proof. intros HP Ht. cbn zeta. intros Hnu HN. exact (proj2 (flushes_bounded P HP p Ht Hnu N n HN)). Qed.
+
+(* ================================================================== (4-iii) the macro-steps of ANY pass *)
+Section AnyPass.
+  Variable P : params.
+  Hypothesis HP : pointwise P.
+  Variable p0 : prog.
+  Hypothesis Ht0 : tree p0.
+
+  Let h := fst (create [] (FTask p0) (st0 P)).
+  Let s1 := snd (create [] (FTask p0) (st0 P)).
+  Let c0 := start h s1.
+
+  Hypothesis Hnu : forall n, no_unwind P n c0.
+
+  (* after a flush that leaves the awaited task uncomputed the next pass starts: two steps later the machine
+     is at the head of the _execute loop with the awaited task alone on the stack *)
+  Theorem next_pass_starts n :
+    c_mode (run P n c0) = MWaitHead -> computed h (c_st (run P n c0)) = false ->
+    run P (n + 1) c0 = mkC MExecLoop [FExec 0; FWait h; FTop] (with_tasks (c_st (run P n c0)) [h]).
+  Proof.
+    intros Hm Hc. destruct (bl_reach P HP p0 Ht0 n (Hnu n)) as (spec & S & (((HC & HFm) & _) & _)).
+    fold h s1 c0 in HC, HFm. rewrite Hm in HFm. destruct HFm as (_ & HK).
+    unfold stack_ok in HK. unfold CInv in HC. rewrite Hm in HC, HK.
+    destruct HC as (_ & Hf & _). rewrite run_add, run_one.
+    destruct (run P n c0) as [m fr s]. cbn [c_mode c_frames c_st frames_ok] in *. subst m fr.
+    cbn [step c_mode c_frames c_st]. rewrite Hc, HK. reflexivity.
+  Qed.
+
+  (* in ANY pass (not only the first one) the entry on top of the task stack is dealt with after finitely many
+     steps - it is popped, the rest of the stack and every other existing heap entry untouched - unless it is an
+     uncomputed blocked task whose dependencies have not been scheduled yet (the "first visit", which pushes its
+     uncomputed dependencies).  An unblocked suspended task is resumed and runs, with everything it starts,
+     until it completes or is stuck again. *)
+  Theorem top_entry_popped_unless_first_visit n s x ts :
+    run P n c0 = mkC MExecLoop [FExec 0; FWait h; FTop] s -> tasks s = x :: ts ->
+    (forall tk, get x s = Some (mkFut None (KTask tk)) -> is_blocked tk s = true -> tk_ds tk = true) ->
+    exists m s', run P (n + m) c0 = mkC MExecLoop [FExec 0; FWait h; FTop] s' /\ tasks s' = ts /\
+      forall d, d <> x -> get d s <> None -> get d s' = get d s.
+  Proof.
+    intros Er Hts Hfv.
+    assert (HR : Rc P p0 (mkC MExecLoop (fr0 P p0) s)) by (exists n; symmetry; exact Er).
+    assert (Hpop : popped P p0 x ts (mkC MExecLoop (fr0 P p0) s)).
+    { destruct (computed x s) eqn:Hc; [apply (exec_pop_simple P p0 Hnu s x ts HR Hts); left; exact Hc|].
+      destruct (get x s) as [[out kd]|] eqn:Hg.
+      2: { apply (exec_pop_simple P p0 Hnu s x ts HR Hts). right. intros tk. rewrite Hg. discriminate. }
+      destruct kd as [tk|kind idx key a|o'|];
+        try (apply (exec_pop_simple P p0 Hnu s x ts HR Hts); right; intros tk0; rewrite Hg; discriminate).
+      assert (out = None) as -> by (unfold computed in Hc; rewrite Hg in Hc; cbn in Hc; destruct out; [discriminate|reflexivity]).
+      destruct (is_blocked tk s) eqn:Hb.
+      - apply (exec_pop_blocked P HP p0 Ht0 Hnu s x ts tk HR Hts Hg Hb). apply (Hfv tk eq_refl Hb).
+      - destruct (Rc_exec_inv P HP p0 Ht0 Hnu s HR) as (spec & S & HS & _).
+        destruct (SInv_entry _ _ _ _ _ HS Hg) as (_ & ot & Hst & _ & Hp & Hk). cbn in Hp, Hk.
+        destruct (Hk eq_refl ltac:(discriminate)) as (k & K1 & K2 & _).
+        apply (resume_then P HP p0 Ht0 Hnu s x ts tk k HR Hts Hg Hb K1). intros o.
+        apply (tree_P_tree P HP p0 Ht0 Hnu). apply K2. }
+    destruct Hpop as (m & s' & R & T & K). exists m, s'. rewrite run_add, Er. split; [exact R|]. split; [exact T|].
+    intros d Nd A. apply K; [|exact A]. intros [E|[]]. apply Nd. symmetry. exact E.
+  Qed.
+End AnyPass.
+
+Theorem next_pass_starts_tree P p n :
+  pointwise P -> tree p ->
+  let h := fst (create [] (FTask p) (st0 P)) in
+  let s1 := snd (create [] (FTask p) (st0 P)) in
+  (forall n, no_unwind P n (start h s1)) ->
+  c_mode (run P n (start h s1)) = MWaitHead -> computed h (c_st (run P n (start h s1))) = false ->
+  run P (n + 1) (start h s1) = mkC MExecLoop [FExec 0; FWait h; FTop] (with_tasks (c_st (run P n (start h s1))) [h]).
+Proof. intros HP Ht. cbn zeta. intros Hnu. exact (next_pass_starts P HP p Ht Hnu n). Qed.
+
+Theorem top_entry_popped_unless_first_visit_tree P p n s x ts :
+  pointwise P -> tree p ->
+  let h := fst (create [] (FTask p) (st0 P)) in
+  let s1 := snd (create [] (FTask p) (st0 P)) in
+  (forall n, no_unwind P n (start h s1)) ->
+  run P n (start h s1) = mkC MExecLoop [FExec 0; FWait h; FTop] s -> tasks s = x :: ts ->
+  (forall tk, get x s = Some (mkFut None (KTask tk)) -> is_blocked tk s = true -> tk_ds tk = true) ->
+  exists m s', run P (n + m) (start h s1) = mkC MExecLoop [FExec 0; FWait h; FTop] s' /\ tasks s' = ts /\
+    forall d, d <> x -> get d s <> None -> get d s' = get d s.
+Proof. intros HP Ht. cbn zeta. intros Hnu. exact (top_entry_popped_unless_first_visit P HP p Ht Hnu n s x ts). Qed.
